@@ -372,6 +372,14 @@ func RunFamily(f Family, o Options) *FamilyReport {
 			Fatal("trace validation run %s failed (trace not consumed to the end or tool error):\n%s", mod, tail(r.Out, 60))
 		}
 		rep.TraceStates = r.Distinct
+		if keep := os.Getenv("VERIF_KEEP"); keep != "" {
+			os.MkdirAll(keep, 0o755)
+			for _, fn := range []string{traceFile, verdictFile} {
+				if b, err := os.ReadFile(fn); err == nil {
+					os.WriteFile(filepath.Join(keep, f.Name()+"."+filepath.Base(fn)), b, 0o644)
+				}
+			}
+		}
 		vs := readVerdicts(verdictFile)
 		if len(vs) != rep.TraceLines {
 			Fatal("trace validation consumed %d of %d lines", len(vs), rep.TraceLines)
